@@ -574,3 +574,16 @@ package errbase
 //@   ensures result == nil
 //@   ensures len($pargs) > len(old($pargs)) && $pargs[len(old($pargs))] == ifaceOf(self.msg)
 //@   loop 1: invariant len($pargs) > len(old($pargs)) && $pargs[len(old($pargs))] == ifaceOf(self.msg)
+
+// ---- os error adapters (C03): the operation name of a decoded os.LinkError comes from the first
+// string of the payload, which a peer's encodeLinkError fills with the Op of its own value (wire
+// invariant; os.LinkError's invariant says operation names are program text) ----
+//@ func decodeLinkError
+//@   props C03 C05
+//@   requires[C03] typeis(payload, *errorspb.StringsPayload) && len(payload.(*errorspb.StringsPayload).Details) >= 3 ==> safeS(payload.(*errorspb.StringsPayload).Details[0])
+
+//@ func encodeLinkError
+//@   props C03
+//@   requires typeis(err, *os.LinkError)
+//@   ensures[C03] typeis(details, *errorspb.StringsPayload) && len(details.(*errorspb.StringsPayload).Details) == 3 && safeS(details.(*errorspb.StringsPayload).Details[0])
+//@   ensures[C03] safeSeq(safe)
